@@ -108,7 +108,7 @@ def h_regress(ctx):
         cl.append(('regress / mse must not raise (%s: %s)' % (type(ex).__name__, ex), False))
         sym = [type(ex).__name__]
     return PathResult(outcome, cl, inputs=dict(mu=mu, S=Sg, y=y, Xs=S, style=style), call='regress',
-                      info=dict(y=y, S=S, style=style), diff=(_real_regress, sym, dict(nice=True, tol=1e-6)))
+                      info=dict(y=y, S=S, style=style), diff=(None if outcome.startswith('singular') else (_real_regress, sym, dict(nice=True, tol=1e-6))))
 
 
 def _np_xs(S, style):
